@@ -64,7 +64,7 @@ t["jobs"].append(fuzz_job("FuzzUnpad", 150))
 add("C08", "c08", q, t)
 
 # ---- C09 secret-based encryption ----------------------------------------------
-q, t = rapid_jobs(tshards=16, tscale=150)
+q, t = rapid_jobs(tshards=16, tscale=40)
 t["jobs"].append(dict(name="openssl", mode="plain", run="^TestOpenSSL$", shards=1, scale=10, timeout=600))
 t["jobs"].append(fuzz_job("FuzzDecrypt", 180))
 add("C09", "c09", q, t)
@@ -79,7 +79,7 @@ ASSUMPTIONS["C02"] = ["tower heights are injected by replacing the list's privat
 # ---- C03 roaring bitmap / C16 bit sets ------------------------------------------
 q, t = rapid_jobs(tshards=16, tscale=64)
 add("C03", "c03", q, t)
-q, t = rapid_jobs(tshards=16, tscale=60)
+q, t = rapid_jobs(tshards=16, tscale=30)  # bits_huge allocates 256-512 MiB per case: 16 shards stay below 10 GiB
 add("C16", "c16", q, t)
 
 # ---- C04 heaps -------------------------------------------------------------------
